@@ -236,6 +236,8 @@ PROPS['C12'] = adds_prop('Built functions appear exactly as built', ['Orca/Props
     'Lean 4 proof (composition of the builder, locals, types, emission and index-space models) + differential correspondence check')
 PROPS['C12']['families'].append({'name': 'edit', 'quick_n': 1500, 'thorough_n': 100000, 'keys': ['inv']})
 PROPS['C12']['rule'] += ' Also the edit family: functions built with the function builder (added, or put in the place of an import) among additions, deletions and conversions - an encoded module that cannot be decoded holds no built function.'
+PROPS['C10']['families'].append({'name': 'adds', 'quick_n': 1500, 'thorough_n': 100000})
+PROPS['C10']['rule'] += ' Also the adds family: replacements built with locals and names of their own (runs of locals of one type included), decoded from the output and compared with what was built.'
 PROPS['C30'] = adds_prop('Module-level additions appear exactly as requested', ['Orca/Props/C30.lean'],
     'Lean 4 theorems: every InitInstr variant is encoded as the instruction it denotes and every constant payload keeps its bit pattern (tables regenerated from InitExpr::to_wasmencoder_type; f32/f64 through to_bits, '
     'v128 through u128-as-i128 and little-endian bytes: proved for all 16-byte vectors); reported ids are storage positions; mod_global_init_expr changes that initialiser only. Types, limits, bytes and export targets are '
